@@ -67,11 +67,13 @@ PROPS = {
         "quick": {
             "kani": [
                 G("c01-cr", "core-relations", ["c01_"], jobs=6, ht=1200, wall=3000),
+                G("c01-br", "egglog-bridge", ["c01_bridge_"], jobs=4, ht=1200, wall=3000),
             ],
         },
         "thorough": {
             "kani": [
                 G("c01-cr", "core-relations", ["c01_", "c01t_"], jobs=8, ht=3600, wall=10800),
+                G("c01-br", "egglog-bridge", ["c01_bridge_"], jobs=4, ht=3600, wall=10800),
             ],
         },
         "rule": ("one Kani harness = one solver query over all forests of 4 ids and all contents of one row, for one "
@@ -111,6 +113,59 @@ PROPS = {
             "last_run_at equals the next_ts of its own previous run; next_ts strictly increases",
             "NOT covered: that rebuilt / refreshed / container-dirtied rows are re-inserted with a fresh timestamp (table and container "
             "code outside both engines); timestamp counter overflow",
+        ],
+    },
+    "C05": {
+        "level": "model_checking",
+        "quick": {"kani": [G("c05-br", "egglog-bridge", ["c05_bridge_"], jobs=6, ht=1200, wall=3000)]},
+        "thorough": {"kani": [G("c05-br", "egglog-bridge", ["c05_bridge_", "c05t_"], jobs=6, ht=3600, wall=10800)]},
+        "rule": ("one Kani harness = one solver query over all operand values (cur, new, ts: arbitrary u32) and all results of nested "
+                 "calls (arbitrary Option<u32>) for one arm / nesting shape of the real merge-expression interpreter "
+                 "ResolvedMergeFn::run; non-trivial iff every `witness:` cover is SATISFIED"),
+        "assumptions": [
+            "kernel level: the interpreter of compiled merge expressions is exact for every arm (Old, New, Const, AssertEq = :no-merge, "
+            "UnionId, Primitive, Function) and for nesting depth <= 2; THAT the merge is applied on every collision (the four collision "
+            "paths of SortedWritesTable, MergeFn::to_callback, order / batching / thread independence of the fold) is NOT covered",
+            "ExecutionState::{stage_insert, call_external_func} and TableAction::lookup_or_insert are replaced by recorders returning "
+            "arbitrary values (the real ones reach ArcSwap / hash tables)",
+            "CBMC/Kani semantics of Rust MIR; unwinding assertions enabled",
+        ],
+    },
+    "C18": {
+        "level": "model_checking",
+        "quick": {"kani": [G("c18-main", ".", ["c18_sched_"], jobs=6, ht=1200, wall=3000)]},
+        "thorough": {"kani": [G("c18-main", ".", ["c18_sched_", "c18t_sched_"], jobs=6, ht=3600, wall=10800)]},
+        "rule": ("one Kani harness = one solver query over all match values (pairwise distinct, arbitrary u32) and all chosen indices "
+                 "(arbitrary, possibly repeated) for a fixed number of choose() calls on the real scheduler::Matches; non-trivial iff "
+                 "every `witness:` cover is SATISFIED"),
+        "assumptions": [
+            "kernel level: only the residual-match bookkeeping (Matches::{new, choose, choose_all, instantiate}) is decided: a chosen match is "
+            "applied and not offered again, an unchosen one stays exactly once; 4 matches, <= 4 choose calls, variable-free tuple layout "
+            "(width 1)",
+            "NOT covered: that every satisfying substitution is offered (the scheduler's query rule; partly C02's plan validation), matches "
+            "interpreted modulo later equalities, restoration on error, can_stop",
+            "TableAction::insert and BaseValues::get are replaced by recorders",
+            "CBMC/Kani semantics of Rust MIR; unwinding assertions enabled",
+        ],
+    },
+    "C13": {
+        "level": "translation_validation",
+        "quick": {"kani": [G("c13-br", "egglog-bridge", ["c13_bridge_"], jobs=4, ht=1200, wall=3000)],
+                  "e2": {"args": [], "wall_cap": 3000}},
+        "thorough": {"kani": [G("c13-br", "egglog-bridge", ["c13_bridge_", "c13t_bridge_"], jobs=4, ht=3600, wall=10800)],
+                     "e2": {"args": [], "wall_cap": 14000}},
+        "rule": ("one 'program' = one distinct plan set dumped from the real engine for a rule body, or for `(check body)`, while it "
+                 "runs generated histories that insert rows, subsume some of them (at top level and from rule actions) and insert "
+                 "subsumed tuples again; z3 decides over ALL databases with arbitrary subsume flags that a rule plan can never match a "
+                 "subsumed row and loses no match on non-subsumed rows, and that a check plan matches subsumed rows as well. Kani "
+                 "decides the subsume-flag algebra and the column arithmetic. Non-trivial iff a database with a match exists."),
+        "assumptions": [
+            "E1 part: combine_subsumed is a join with SUBSUMED absorbing (merging a subsumed row with a congruent one, in either order, "
+            "stays subsumed); SchemaMath puts timestamp and subsume flag in the columns the plans constrain (func_cols 1,2,3,5)",
+            "every generated history is also executed concretely: the real Out table and the real outcome of (check body) are compared "
+            "with the body's meaning under the subsume flags the history implies (re-inserted subsumed tuples stay subsumed)",
+            "NOT covered: survival of the flag through rebuild re-insertion of CONGRUENT rows, rehash, parallel insert, push/pop; "
+            "extraction skipping subsumed rows; delete",
         ],
     },
 }
